@@ -52,6 +52,8 @@ func runC05(c *Ctx, r *Report) {
 	// (f) a match is counted before it is published: the counters are advanced only inside the
 	// classifying function, which returns before the worker sends the match to the aggregation loop
 	borrow(c, r, c01Counters, "C01-a", "C05-f", nil, true)
+	// (g) the final render reflects all matches: a worker leaves nothing it collected unsent
+	c01WorkerForward(c, r, "C05-b/worker-forward")
 }
 
 // ---------------------------------------------------------------- (a) atomics
